@@ -118,5 +118,35 @@ theorem LInv.elCore {s : St} (hs : LInv s) (oe ev : Nat) (p : Pt) (d : Nat) (b_0
     · simp at h
     · omega
 
+set_option maxHeartbeats 4000000 in
+theorem LInv.elCore_vb {s : St} (hs : LInv s) (hvb : s.VBound) (oe ev : Nat) (p : Pt) (d : Nat) (b_0 : oe < s.nE)
+    (hnF : s.nF = 1) (hend : s.prv oe = s.rv oe) (horg : s.org oe = ev) :
+    (St.elCore s oe (s.rv oe) ev (s.fc oe) p d).VBound := by
+  have ev0 := hs.even
+  have E0 := hs.edge oe b_0
+  have hfc : s.fc oe = 0 := by have := E0.2.2.2.1; omega
+  have b_1 := hs.rv_lt b_0
+  have E1 := hs.edge _ b_1
+  have r0 := hs.rv_rv b_0
+  have rne := hs.rv_ne b_0
+  have a4 : s.nxt (s.rv oe) = oe := by have := E0.2.2.2.2.2.2.1; rw [hend] at this; exact this
+  have f1 : s.fc (s.rv oe) = 0 := by
+    have := E1.2.2.2.2.2.2.2.1; rw [a4, hfc] at this; exact this.symm
+  have hv : ev < s.nV := by rw [← horg]; exact E0.1
+  generalize hie : s.rv oe = ie at *
+  have d_0_1 : oe ≠ ie := Ne.symm rne
+  have n_0 : ∀ k, s.nE + k ≠ oe := by intro k; omega
+  have m_0 : s.nE ≠ oe := by omega
+  have u_0 : ∀ k, oe < s.nE + k := by intro k; omega
+  have n_1 : ∀ k, s.nE + k ≠ ie := by intro k; omega
+  have m_1 : s.nE ≠ ie := by omega
+  have u_1 : ∀ k, ie < s.nE + k := by intro k; omega
+  have szE : (s.elCore oe ie ev (s.fc oe) p d).nE = s.nE + 2 := by unfold St.elCore; evw [b_0, b_1, d_0_1, d_0_1.symm, n_0, (n_0 _).symm, m_0, m_0.symm, u_0, n_1, (n_1 _).symm, m_1, m_1.symm, u_1]
+  unfold St.elCore at szE ⊢
+  refine vbound_run s _ hvb (s.nE + 2) szE (by omega) ?_
+  intro i hi
+  simp only [List.mem_cons, List.not_mem_nil, or_false] at hi
+  rcases hi with rfl | rfl | rfl | rfl <;> simp only [Instr.argOK] <;> omega
+
 end St
 end Spade
